@@ -171,6 +171,7 @@ class Triaxys(object):
         self.dset = xr.DataArray(
             data=self.spec_list, coords=self.coords, dims=self.dims, name=attrs.SPECNAME
         ).to_dataset()
+        self.dset = self.dset.sortby(attrs.TIMENAME)
         set_spec_attributes(self.dset)
         if not self.is_dir:
             self.dset = self.dset.isel(drop=True, **{attrs.DIRNAME: 0})
